@@ -10,22 +10,18 @@ use crate::proto::{LabelPair, Metric};
 
 /// append-only writer into a fixed buffer (no heap growth under the solver)
 struct Buf {
-    data: [u8; 48],
+    data: [u8; 200],
     len: usize,
 }
 impl Buf {
-    fn new() -> Buf { Buf { data: [0; 48], len: 0 } }
+    fn new() -> Buf { Buf { data: [0; 200], len: 0 } }
 }
 impl WriteUtf8 for Buf {
     fn write_all(&mut self, text: &str) -> io::Result<()> {
         let b = text.as_bytes();
-        let mut i = 0;
-        while i < b.len() {
-            assert!(self.len < 48, "C04 harness buffer too small");
-            self.data[self.len] = b[i];
-            self.len += 1;
-            i += 1;
-        }
+        assert!(self.len + b.len() <= 200, "C04 harness buffer too small");
+        self.data[self.len..self.len + b.len()].copy_from_slice(b);
+        self.len += b.len();
         Ok(())
     }
 }
@@ -97,7 +93,7 @@ pub fn naive_first(v: &str, q: bool) -> Option<usize> {
 }
 pub fn f64_display_marker(v: &f64, f: &mut std::fmt::Formatter<'_>) -> std::fmt::Result {
     let mut e = Exp::new();
-    e.num_f64(v);
+    e.hex16(v.to_bits());
     f.write_str(unsafe { std::str::from_utf8_unchecked(&e.data[..16]) })
 }
 pub fn i64_display_marker(v: &i64, f: &mut std::fmt::Formatter<'_>) -> std::fmt::Result {
@@ -216,11 +212,15 @@ use crate::proto::{Bucket, Counter, Gauge, Histogram, MetricFamily, MetricType, 
 /// Histogram family (literal names, one label, one explicit bucket) with symbolic numbers: bucket
 /// bound, cumulative count, sample count, sample sum, and timestamp. Output must be exactly
 /// HELP, TYPE, the bucket line, the implicit +Inf bucket = sample count, _sum, _count.
-#[cfg_attr(kani, kani::proof, kani::unwind(180),
+#[cfg_attr(kani, kani::proof, kani::unwind(20),
+    kani::stub(std::fmt::format, fmt_scripted_strs),
+    kani::stub(<str>::to_lowercase, ascii_lowercase_stub),
     kani::stub(crate::encoder::text::find_first_occurence, naive_first),
     kani::stub(<f64 as std::fmt::Display>::fmt, f64_display_marker),
     kani::stub(<i64 as std::fmt::Display>::fmt, i64_display_marker))]
 pub fn c04_encode_histogram_family_layout() {
+    // `format!("{:?}", metric_type)` is called once per family and entry point: scripted
+    fmt_script_strs(&["Histogram"]);
     let (bound, sum) = (any_f64(), any_f64());
     let (cum, cnt) = (any_u64(), any_u64());
     assume(!(bound == f64::INFINITY));
@@ -238,8 +238,9 @@ pub fn c04_encode_histogram_family_layout() {
     mf.set_help(String::from("x"));
     mf.set_field_type(MetricType::HISTOGRAM);
     mf.set_metric(vec![m]);
-    let mut out = String::from("P\n");
-    let r = TextEncoder::new().encode_utf8(&[mf], &mut out);
+    let mut out = Buf::new();
+    assert!(out.write_all("P\n").is_ok());
+    let r = TextEncoder::new().encode_impl(&[mf], &mut out);
     assert!(r.is_ok());
     let mut e = Exp2::new();
     e.lit("P\n# HELP h x\n# TYPE h histogram\n");
@@ -247,17 +248,19 @@ pub fn c04_encode_histogram_family_layout() {
     e.lit("h_bucket{l=\"v\",le=\"+Inf\"} "); e.num_f64(cnt as f64); e.lit("\n");
     e.lit("h_sum{l=\"v\"} "); e.num_f64(sum); e.lit("\n");
     e.lit("h_count{l=\"v\"} "); e.num_f64(cnt as f64); e.lit("\n");
-    assert!(e.matches(out.as_bytes()), "C04 histogram: HELP, TYPE, cumulative buckets, +Inf bucket equal to the count, _sum, _count; output only appended");
-    std::mem::forget(out);
+    assert!(e.matches(&out.data, out.len), "C04 histogram: HELP, TYPE, cumulative buckets, +Inf bucket equal to the count, _sum, _count; output only appended");
 }
 /// Two families (gauge without help, counter with timestamp): order preserved, one TYPE block per
-/// family, empty help omits the HELP line, non-zero timestamp kept; `encode` (io::Write) and
-/// `encode_to_string` produce the same bytes as `encode_utf8`.
-#[cfg_attr(kani, kani::proof, kani::unwind(180),
+/// family, empty help omits the HELP line, non-zero timestamp kept.
+#[cfg_attr(kani, kani::proof, kani::unwind(20),
+    kani::stub(std::fmt::format, fmt_scripted_strs),
+    kani::stub(<str>::to_lowercase, ascii_lowercase_stub),
     kani::stub(crate::encoder::text::find_first_occurence, naive_first),
     kani::stub(<f64 as std::fmt::Display>::fmt, f64_display_marker),
     kani::stub(<i64 as std::fmt::Display>::fmt, i64_display_marker))]
 pub fn c04_encode_two_families_order_and_agreement() {
+    // `format!("{:?}", metric_type)` is called once per family and entry point: scripted
+    fmt_script_strs(&["Gauge", "Counter"]);
     let (gv, cv) = (any_f64(), any_f64());
     let ts = any_i64();
     assume(ts != 0);
@@ -283,26 +286,66 @@ pub fn c04_encode_two_families_order_and_agreement() {
         [f1, f2]
     };
     let fams = mk();
-    let mut out = String::new();
-    assert!(TextEncoder::new().encode_utf8(&fams, &mut out).is_ok());
+    let mut out = Buf::new();
+    assert!(TextEncoder::new().encode_impl(&fams, &mut out).is_ok());
     let mut e = Exp2::new();
     e.lit("# TYPE b gauge\nb "); e.num_f64(gv); e.lit("\n");
     e.lit("# HELP a y\n# TYPE a counter\na "); e.num_f64(cv); e.lit(" "); e.num_i64(ts); e.lit("\n");
-    assert!(e.matches(out.as_bytes()), "C04 families in order, one header block each, empty help omitted, timestamp kept");
-    let mut w: Vec<u8> = Vec::with_capacity(128);
-    assert!(crate::encoder::Encoder::encode(&TextEncoder::new(), &fams, &mut w).is_ok());
-    assert!(e.matches(&w), "C04 encode (io::Write) produces the same bytes as encode_utf8");
-    let s2 = TextEncoder::new().encode_to_string(&fams).unwrap();
-    assert!(e.matches(s2.as_bytes()), "C04 encode_to_string produces the same bytes as encode_utf8");
-    std::mem::forget((out, w, s2));
+    assert!(e.matches(&out.data, out.len), "C04 families in order, one header block each, empty help omitted, timestamp kept");
     std::mem::forget(fams);
 }
+/// `encode` (io::Write), `encode_utf8` and `encode_to_string` are the same rendering: on a gauge
+/// family with a symbolic value all three produce the bytes `encode_impl` writes, after whatever
+/// the buffer already held.
+#[cfg_attr(kani, kani::proof, kani::unwind(20),
+    kani::stub(std::fmt::format, fmt_scripted_strs),
+    kani::stub(<str>::to_lowercase, ascii_lowercase_stub),
+    kani::stub(crate::encoder::text::find_first_occurence, naive_first),
+    kani::stub(<f64 as std::fmt::Display>::fmt, f64_display_marker),
+    kani::stub(<i64 as std::fmt::Display>::fmt, i64_display_marker))]
+pub fn c04_entry_points_agree_and_append() {
+    fmt_script_strs(&["Gauge", "Gauge", "Gauge"]);
+    let gv = any_f64();
+    let mut g = Gauge::default();
+    g.set_value(gv);
+    let mut m1 = Metric::default();
+    m1.set_gauge(g);
+    let mut f1 = MetricFamily::default();
+    f1.set_name(String::from("b"));
+    f1.set_field_type(MetricType::GAUGE);
+    f1.set_metric(vec![m1]);
+    let fams = [f1];
+    let mut e = Exp2::new();
+    e.lit("# TYPE b gauge\nb "); e.num_f64(gv); e.lit("\n");
+    let mut s1 = String::with_capacity(64);
+    s1.push('P');
+    assert!(TextEncoder::new().encode_utf8(&fams, &mut s1).is_ok());
+    let mut w: Vec<u8> = Vec::with_capacity(64);
+    w.push(b'P');
+    assert!(crate::encoder::Encoder::encode(&TextEncoder::new(), &fams, &mut w).is_ok());
+    let s3 = TextEncoder::new().encode_to_string(&fams).unwrap();
+    let cp = |b: &[u8]| { let mut a = [0u8; 200]; a[..b.len()].copy_from_slice(b); (a, b.len()) };
+    let (a1, n1) = cp(&s1.as_bytes()[1..]);
+    let (a2, n2) = cp(&w[1..]);
+    let (a3, n3) = cp(s3.as_bytes());
+    assert!(s1.as_bytes()[0] == b'P' && w[0] == b'P', "C04 encoders only append to their output");
+    assert!(e.matches(&a1, n1), "C04 encode_utf8 renders the families");
+    assert!(e.matches(&a2, n2), "C04 encode (io::Write) produces the same bytes as encode_utf8");
+    assert!(e.matches(&a3, n3), "C04 encode_to_string produces the same bytes as encode_utf8");
+    std::mem::forget((s1, w, s3));
+    std::mem::forget(fams);
+}
+
 /// Summary family: quantile lines, _sum, _count.
-#[cfg_attr(kani, kani::proof, kani::unwind(180),
+#[cfg_attr(kani, kani::proof, kani::unwind(20),
+    kani::stub(std::fmt::format, fmt_scripted_strs),
+    kani::stub(<str>::to_lowercase, ascii_lowercase_stub),
     kani::stub(crate::encoder::text::find_first_occurence, naive_first),
     kani::stub(<f64 as std::fmt::Display>::fmt, f64_display_marker),
     kani::stub(<i64 as std::fmt::Display>::fmt, i64_display_marker))]
 pub fn c04_encode_summary_family_layout() {
+    // `format!("{:?}", metric_type)` is called once per family and entry point: scripted
+    fmt_script_strs(&["Summary"]);
     let (q, v, sum) = (any_f64(), any_f64(), any_f64());
     let cnt = any_u64();
     let mut sm = Summary::default();
@@ -318,23 +361,21 @@ pub fn c04_encode_summary_family_layout() {
     mf.set_name(String::from("s"));
     mf.set_field_type(MetricType::SUMMARY);
     mf.set_metric(vec![m]);
-    let mut out = String::new();
-    assert!(TextEncoder::new().encode_utf8(&[mf], &mut out).is_ok());
+    let mut out = Buf::new();
+    assert!(TextEncoder::new().encode_impl(&[mf], &mut out).is_ok());
     let mut e = Exp2::new();
     e.lit("# TYPE s summary\ns{quantile=\""); e.num_f64(q); e.lit("\"} "); e.num_f64(v); e.lit("\n");
     e.lit("s_sum "); e.num_f64(sum); e.lit("\ns_count "); e.num_f64(cnt as f64); e.lit("\n");
-    assert!(e.matches(out.as_bytes()), "C04 summary: quantile lines, _sum, _count");
-    std::mem::forget(out);
+    assert!(e.matches(&out.data, out.len), "C04 summary: quantile lines, _sum, _count");
 }
 
-/// expected bytes, 200-byte capacity
+/// expected bytes, 200-byte capacity; no loops over the text (memcpy for literals, an unrolled
+/// comparison), so that the harness unwind bound stays small
 struct Exp2 {
     data: [u8; 200],
     len: usize,
 }
 impl Exp2 {
-    /// the rendering of an f64 sample value: injective marker under Kani (where `Display` is stubbed by
-    /// the same marker), std's real rendering in native replay
     fn num_f64(&mut self, v: f64) {
         #[cfg(kani)]
         self.hex16(v.to_bits());
@@ -352,7 +393,11 @@ impl Exp2 {
     }
     fn new() -> Exp2 { Exp2 { data: [0; 200], len: 0 } }
     fn push(&mut self, b: u8) { self.data[self.len] = b; self.len += 1; }
-    fn lit(&mut self, s: &str) { let b = s.as_bytes(); let mut i = 0; while i < b.len() { self.push(b[i]); i += 1; } }
+    fn lit(&mut self, s: &str) {
+        let b = s.as_bytes();
+        self.data[self.len..self.len + b.len()].copy_from_slice(b);
+        self.len += b.len();
+    }
     fn hex16(&mut self, bits: u64) {
         let mut i = 0;
         while i < 16 {
@@ -361,15 +406,211 @@ impl Exp2 {
             i += 1;
         }
     }
-    /// byte-for-byte equality with explicit per-position comparison (positions are concrete)
-    fn matches(&self, got: &[u8]) -> bool {
-        if got.len() != self.len { return false; }
+    /// byte-for-byte equality (unrolled)
+    fn matches(&self, got: &[u8; 200], glen: usize) -> bool {
+        if glen != self.len { return false; }
+        let n = self.len;
         let mut ok = true;
-        let mut i = 0;
-        while i < self.len {
-            if got[i] != self.data[i] { ok = false; }
-            i += 1;
-        }
+        if 0 < n && got[0] != self.data[0] { ok = false; }
+        if 1 < n && got[1] != self.data[1] { ok = false; }
+        if 2 < n && got[2] != self.data[2] { ok = false; }
+        if 3 < n && got[3] != self.data[3] { ok = false; }
+        if 4 < n && got[4] != self.data[4] { ok = false; }
+        if 5 < n && got[5] != self.data[5] { ok = false; }
+        if 6 < n && got[6] != self.data[6] { ok = false; }
+        if 7 < n && got[7] != self.data[7] { ok = false; }
+        if 8 < n && got[8] != self.data[8] { ok = false; }
+        if 9 < n && got[9] != self.data[9] { ok = false; }
+        if 10 < n && got[10] != self.data[10] { ok = false; }
+        if 11 < n && got[11] != self.data[11] { ok = false; }
+        if 12 < n && got[12] != self.data[12] { ok = false; }
+        if 13 < n && got[13] != self.data[13] { ok = false; }
+        if 14 < n && got[14] != self.data[14] { ok = false; }
+        if 15 < n && got[15] != self.data[15] { ok = false; }
+        if 16 < n && got[16] != self.data[16] { ok = false; }
+        if 17 < n && got[17] != self.data[17] { ok = false; }
+        if 18 < n && got[18] != self.data[18] { ok = false; }
+        if 19 < n && got[19] != self.data[19] { ok = false; }
+        if 20 < n && got[20] != self.data[20] { ok = false; }
+        if 21 < n && got[21] != self.data[21] { ok = false; }
+        if 22 < n && got[22] != self.data[22] { ok = false; }
+        if 23 < n && got[23] != self.data[23] { ok = false; }
+        if 24 < n && got[24] != self.data[24] { ok = false; }
+        if 25 < n && got[25] != self.data[25] { ok = false; }
+        if 26 < n && got[26] != self.data[26] { ok = false; }
+        if 27 < n && got[27] != self.data[27] { ok = false; }
+        if 28 < n && got[28] != self.data[28] { ok = false; }
+        if 29 < n && got[29] != self.data[29] { ok = false; }
+        if 30 < n && got[30] != self.data[30] { ok = false; }
+        if 31 < n && got[31] != self.data[31] { ok = false; }
+        if 32 < n && got[32] != self.data[32] { ok = false; }
+        if 33 < n && got[33] != self.data[33] { ok = false; }
+        if 34 < n && got[34] != self.data[34] { ok = false; }
+        if 35 < n && got[35] != self.data[35] { ok = false; }
+        if 36 < n && got[36] != self.data[36] { ok = false; }
+        if 37 < n && got[37] != self.data[37] { ok = false; }
+        if 38 < n && got[38] != self.data[38] { ok = false; }
+        if 39 < n && got[39] != self.data[39] { ok = false; }
+        if 40 < n && got[40] != self.data[40] { ok = false; }
+        if 41 < n && got[41] != self.data[41] { ok = false; }
+        if 42 < n && got[42] != self.data[42] { ok = false; }
+        if 43 < n && got[43] != self.data[43] { ok = false; }
+        if 44 < n && got[44] != self.data[44] { ok = false; }
+        if 45 < n && got[45] != self.data[45] { ok = false; }
+        if 46 < n && got[46] != self.data[46] { ok = false; }
+        if 47 < n && got[47] != self.data[47] { ok = false; }
+        if 48 < n && got[48] != self.data[48] { ok = false; }
+        if 49 < n && got[49] != self.data[49] { ok = false; }
+        if 50 < n && got[50] != self.data[50] { ok = false; }
+        if 51 < n && got[51] != self.data[51] { ok = false; }
+        if 52 < n && got[52] != self.data[52] { ok = false; }
+        if 53 < n && got[53] != self.data[53] { ok = false; }
+        if 54 < n && got[54] != self.data[54] { ok = false; }
+        if 55 < n && got[55] != self.data[55] { ok = false; }
+        if 56 < n && got[56] != self.data[56] { ok = false; }
+        if 57 < n && got[57] != self.data[57] { ok = false; }
+        if 58 < n && got[58] != self.data[58] { ok = false; }
+        if 59 < n && got[59] != self.data[59] { ok = false; }
+        if 60 < n && got[60] != self.data[60] { ok = false; }
+        if 61 < n && got[61] != self.data[61] { ok = false; }
+        if 62 < n && got[62] != self.data[62] { ok = false; }
+        if 63 < n && got[63] != self.data[63] { ok = false; }
+        if 64 < n && got[64] != self.data[64] { ok = false; }
+        if 65 < n && got[65] != self.data[65] { ok = false; }
+        if 66 < n && got[66] != self.data[66] { ok = false; }
+        if 67 < n && got[67] != self.data[67] { ok = false; }
+        if 68 < n && got[68] != self.data[68] { ok = false; }
+        if 69 < n && got[69] != self.data[69] { ok = false; }
+        if 70 < n && got[70] != self.data[70] { ok = false; }
+        if 71 < n && got[71] != self.data[71] { ok = false; }
+        if 72 < n && got[72] != self.data[72] { ok = false; }
+        if 73 < n && got[73] != self.data[73] { ok = false; }
+        if 74 < n && got[74] != self.data[74] { ok = false; }
+        if 75 < n && got[75] != self.data[75] { ok = false; }
+        if 76 < n && got[76] != self.data[76] { ok = false; }
+        if 77 < n && got[77] != self.data[77] { ok = false; }
+        if 78 < n && got[78] != self.data[78] { ok = false; }
+        if 79 < n && got[79] != self.data[79] { ok = false; }
+        if 80 < n && got[80] != self.data[80] { ok = false; }
+        if 81 < n && got[81] != self.data[81] { ok = false; }
+        if 82 < n && got[82] != self.data[82] { ok = false; }
+        if 83 < n && got[83] != self.data[83] { ok = false; }
+        if 84 < n && got[84] != self.data[84] { ok = false; }
+        if 85 < n && got[85] != self.data[85] { ok = false; }
+        if 86 < n && got[86] != self.data[86] { ok = false; }
+        if 87 < n && got[87] != self.data[87] { ok = false; }
+        if 88 < n && got[88] != self.data[88] { ok = false; }
+        if 89 < n && got[89] != self.data[89] { ok = false; }
+        if 90 < n && got[90] != self.data[90] { ok = false; }
+        if 91 < n && got[91] != self.data[91] { ok = false; }
+        if 92 < n && got[92] != self.data[92] { ok = false; }
+        if 93 < n && got[93] != self.data[93] { ok = false; }
+        if 94 < n && got[94] != self.data[94] { ok = false; }
+        if 95 < n && got[95] != self.data[95] { ok = false; }
+        if 96 < n && got[96] != self.data[96] { ok = false; }
+        if 97 < n && got[97] != self.data[97] { ok = false; }
+        if 98 < n && got[98] != self.data[98] { ok = false; }
+        if 99 < n && got[99] != self.data[99] { ok = false; }
+        if 100 < n && got[100] != self.data[100] { ok = false; }
+        if 101 < n && got[101] != self.data[101] { ok = false; }
+        if 102 < n && got[102] != self.data[102] { ok = false; }
+        if 103 < n && got[103] != self.data[103] { ok = false; }
+        if 104 < n && got[104] != self.data[104] { ok = false; }
+        if 105 < n && got[105] != self.data[105] { ok = false; }
+        if 106 < n && got[106] != self.data[106] { ok = false; }
+        if 107 < n && got[107] != self.data[107] { ok = false; }
+        if 108 < n && got[108] != self.data[108] { ok = false; }
+        if 109 < n && got[109] != self.data[109] { ok = false; }
+        if 110 < n && got[110] != self.data[110] { ok = false; }
+        if 111 < n && got[111] != self.data[111] { ok = false; }
+        if 112 < n && got[112] != self.data[112] { ok = false; }
+        if 113 < n && got[113] != self.data[113] { ok = false; }
+        if 114 < n && got[114] != self.data[114] { ok = false; }
+        if 115 < n && got[115] != self.data[115] { ok = false; }
+        if 116 < n && got[116] != self.data[116] { ok = false; }
+        if 117 < n && got[117] != self.data[117] { ok = false; }
+        if 118 < n && got[118] != self.data[118] { ok = false; }
+        if 119 < n && got[119] != self.data[119] { ok = false; }
+        if 120 < n && got[120] != self.data[120] { ok = false; }
+        if 121 < n && got[121] != self.data[121] { ok = false; }
+        if 122 < n && got[122] != self.data[122] { ok = false; }
+        if 123 < n && got[123] != self.data[123] { ok = false; }
+        if 124 < n && got[124] != self.data[124] { ok = false; }
+        if 125 < n && got[125] != self.data[125] { ok = false; }
+        if 126 < n && got[126] != self.data[126] { ok = false; }
+        if 127 < n && got[127] != self.data[127] { ok = false; }
+        if 128 < n && got[128] != self.data[128] { ok = false; }
+        if 129 < n && got[129] != self.data[129] { ok = false; }
+        if 130 < n && got[130] != self.data[130] { ok = false; }
+        if 131 < n && got[131] != self.data[131] { ok = false; }
+        if 132 < n && got[132] != self.data[132] { ok = false; }
+        if 133 < n && got[133] != self.data[133] { ok = false; }
+        if 134 < n && got[134] != self.data[134] { ok = false; }
+        if 135 < n && got[135] != self.data[135] { ok = false; }
+        if 136 < n && got[136] != self.data[136] { ok = false; }
+        if 137 < n && got[137] != self.data[137] { ok = false; }
+        if 138 < n && got[138] != self.data[138] { ok = false; }
+        if 139 < n && got[139] != self.data[139] { ok = false; }
+        if 140 < n && got[140] != self.data[140] { ok = false; }
+        if 141 < n && got[141] != self.data[141] { ok = false; }
+        if 142 < n && got[142] != self.data[142] { ok = false; }
+        if 143 < n && got[143] != self.data[143] { ok = false; }
+        if 144 < n && got[144] != self.data[144] { ok = false; }
+        if 145 < n && got[145] != self.data[145] { ok = false; }
+        if 146 < n && got[146] != self.data[146] { ok = false; }
+        if 147 < n && got[147] != self.data[147] { ok = false; }
+        if 148 < n && got[148] != self.data[148] { ok = false; }
+        if 149 < n && got[149] != self.data[149] { ok = false; }
+        if 150 < n && got[150] != self.data[150] { ok = false; }
+        if 151 < n && got[151] != self.data[151] { ok = false; }
+        if 152 < n && got[152] != self.data[152] { ok = false; }
+        if 153 < n && got[153] != self.data[153] { ok = false; }
+        if 154 < n && got[154] != self.data[154] { ok = false; }
+        if 155 < n && got[155] != self.data[155] { ok = false; }
+        if 156 < n && got[156] != self.data[156] { ok = false; }
+        if 157 < n && got[157] != self.data[157] { ok = false; }
+        if 158 < n && got[158] != self.data[158] { ok = false; }
+        if 159 < n && got[159] != self.data[159] { ok = false; }
+        if 160 < n && got[160] != self.data[160] { ok = false; }
+        if 161 < n && got[161] != self.data[161] { ok = false; }
+        if 162 < n && got[162] != self.data[162] { ok = false; }
+        if 163 < n && got[163] != self.data[163] { ok = false; }
+        if 164 < n && got[164] != self.data[164] { ok = false; }
+        if 165 < n && got[165] != self.data[165] { ok = false; }
+        if 166 < n && got[166] != self.data[166] { ok = false; }
+        if 167 < n && got[167] != self.data[167] { ok = false; }
+        if 168 < n && got[168] != self.data[168] { ok = false; }
+        if 169 < n && got[169] != self.data[169] { ok = false; }
+        if 170 < n && got[170] != self.data[170] { ok = false; }
+        if 171 < n && got[171] != self.data[171] { ok = false; }
+        if 172 < n && got[172] != self.data[172] { ok = false; }
+        if 173 < n && got[173] != self.data[173] { ok = false; }
+        if 174 < n && got[174] != self.data[174] { ok = false; }
+        if 175 < n && got[175] != self.data[175] { ok = false; }
+        if 176 < n && got[176] != self.data[176] { ok = false; }
+        if 177 < n && got[177] != self.data[177] { ok = false; }
+        if 178 < n && got[178] != self.data[178] { ok = false; }
+        if 179 < n && got[179] != self.data[179] { ok = false; }
+        if 180 < n && got[180] != self.data[180] { ok = false; }
+        if 181 < n && got[181] != self.data[181] { ok = false; }
+        if 182 < n && got[182] != self.data[182] { ok = false; }
+        if 183 < n && got[183] != self.data[183] { ok = false; }
+        if 184 < n && got[184] != self.data[184] { ok = false; }
+        if 185 < n && got[185] != self.data[185] { ok = false; }
+        if 186 < n && got[186] != self.data[186] { ok = false; }
+        if 187 < n && got[187] != self.data[187] { ok = false; }
+        if 188 < n && got[188] != self.data[188] { ok = false; }
+        if 189 < n && got[189] != self.data[189] { ok = false; }
+        if 190 < n && got[190] != self.data[190] { ok = false; }
+        if 191 < n && got[191] != self.data[191] { ok = false; }
+        if 192 < n && got[192] != self.data[192] { ok = false; }
+        if 193 < n && got[193] != self.data[193] { ok = false; }
+        if 194 < n && got[194] != self.data[194] { ok = false; }
+        if 195 < n && got[195] != self.data[195] { ok = false; }
+        if 196 < n && got[196] != self.data[196] { ok = false; }
+        if 197 < n && got[197] != self.data[197] { ok = false; }
+        if 198 < n && got[198] != self.data[198] { ok = false; }
+        if 199 < n && got[199] != self.data[199] { ok = false; }
         ok
     }
 }
@@ -385,6 +626,7 @@ pub fn dispatch(name: &str) -> Option<fn()> {
         "c04_encode_histogram_family_layout" => c04_encode_histogram_family_layout,
         "c04_encode_two_families_order_and_agreement" => c04_encode_two_families_order_and_agreement,
         "c04_encode_summary_family_layout" => c04_encode_summary_family_layout,
+        "c04_entry_points_agree_and_append" => c04_entry_points_agree_and_append,
         _ => return None,
     })
 }
